@@ -114,6 +114,7 @@ type nodeState struct {
 	snapTouched  bool   // restore / install / compaction happened in this incarnation
 	truncPending uint64 // a truncation from this index has started and not finished
 	xferPermit   bool   // told to time out now, candidate ever since
+	resetWall    int64  // wall ms of the last request handled that re-arms the election timer (0 = none in this incarnation)
 	leaderKnown  uint64
 }
 
@@ -158,6 +159,7 @@ type Analyzer struct {
 	wireIDs       map[uint64]bool    // node ids used by wire-level harness peers
 	elXfer        map[[3]uint64]bool // (cid, candidate, term) -> the election had transfer permission
 	flooded       bool               // see ev.MaxRecords
+	hbMs          int64              // heartbeat timeout of the run (from the params record)
 	alias         map[uint64]uint64  // virtual node id -> peer id it speaks as (engine B)
 	nutGone       bool
 	wireQ         []*ev.Rec // requests announced by the wire-level peer, not yet handled by the node
@@ -613,6 +615,11 @@ func (a *Analyzer) Feed(r *ev.Rec) {
 		}
 	case "transfer-unanswered":
 		a.find("C16", "transfer-neither-completes-nor-fails", "", r.Q, "the leadership transfer to %d submitted to %s (timeout %s) has not been answered a minute later, and the node is running", r.Tgt, n.key, r.Note)
+	case "params":
+		var hb int64
+		if _, err := fmt.Sscanf(r.Note, "hb=%dms", &hb); err == nil {
+			a.hbMs = hb
+		}
 	case "wait-abandoned":
 		a.stat("waits-abandoned-by-the-harness")
 	case "after-failed-transfer":
